@@ -16,15 +16,21 @@ MONTH_DAYS = [31, 28, 31, 30, 31, 30, 31, 31, 30, 31, 30, 31]
 MONTH_HOURS = [24 * d for d in MONTH_DAYS]
 
 
-def month_start_hour(m: int) -> int:
-    """0-based hour index at which month m (1-based, may exceed 12) starts"""
-    y, mi = divmod(m - 1, 12)
-    return y * 8760 + sum(MONTH_HOURS[:mi])
+LEAP_MONTH_HOURS = [24 * d for d in (31, 29, 31, 30, 31, 30, 31, 31, 30, 31, 30, 31)]
 
 
-def month_end_hour(m: int) -> int:
+def month_start_hour(m: int, leap: bool = False) -> int:
+    """0-based hour index at which month m (1-based, may exceed 12) starts; leap: every year of the horizon is the
+    same leap load year (HybridLoad with a single leap year in `years`)"""
+    mh = LEAP_MONTH_HOURS if leap else MONTH_HOURS
     y, mi = divmod(m - 1, 12)
-    return y * 8760 + sum(MONTH_HOURS[: mi + 1])
+    return y * sum(mh) + sum(mh[:mi])
+
+
+def month_end_hour(m: int, leap: bool = False) -> int:
+    mh = LEAP_MONTH_HOURS if leap else MONTH_HOURS
+    y, mi = divmod(m - 1, 12)
+    return y * sum(mh) + sum(mh[: mi + 1])
 
 
 def month_of_hour(h: int):
